@@ -25,9 +25,9 @@ fn rfc_signed_form(t: &[u8]) -> Vec<u8> {
         let mut e = content.len();
         while e > 0 && (content[e - 1] == b' ' || content[e - 1] == b'\t') { e -= 1; }
         out.extend_from_slice(&content[..e]);
-        out.extend_from_slice(end);
+        if !end.is_empty() { out.extend_from_slice(b"\r\n"); }
     }
-    canon(&out)
+    out
 }
 
 impl Ctx {
@@ -95,8 +95,12 @@ impl Ctx {
         let body = &arm[body_start..sig_start];
         let mut variants: Vec<(String, String)> = Vec::new();
         // LF -> CRLF in the text section; trailing blanks added to every line
-        variants.push(("crlf".into(), body.replace('\n', "\r\n")));
-        variants.push(("trailing-blanks".into(), body.split('\n').map(|l| format!("{l} \t")).collect::<Vec<_>>().join("\n")));
+        // (the first two leave the RFC signed form alone and must keep the signature valid: every line ending LF -> CR LF;
+        //  blanks added in front of every line ending)
+        variants.push(("crlf".into(), String::from_utf8(canon(body.as_bytes())).unwrap()));
+        variants.push(("trailing-blanks".into(), body.split('\n').map(|l| match l.strip_suffix('\r') { Some(c) => format!("{c} \t\r"), None => format!("{l} \t") }).collect::<Vec<_>>().join("\n")));
+        variants.push(("crlf-every-lf".into(), body.replace('\n', "\r\n")));
+        variants.push(("blanks-behind-cr".into(), body.split('\n').map(|l| format!("{l} \t")).collect::<Vec<_>>().join("\n")));
         // content changes
         if !body.is_empty() {
             let i = self.rng.below(body.len() as u64) as usize;
@@ -121,7 +125,8 @@ impl Ctx {
             let (imp, pred) = match r {
                 Ok((parsed, verified, same_signed)) => {
                     // soundness: verified => signed form unchanged; completeness: unchanged => verified
-                    let ok = if parsed { verified == same_signed } else { true };
+                    let must_verify = name == "crlf" || name == "trailing-blanks";
+                    let ok = if must_verify { parsed && verified } else if parsed { verified == same_signed } else { true };
                     (format!("parsed={} verified={} same={}", parsed as u8, verified as u8, same_signed as u8), ok)
                 }
                 Err(p) => (p, false),
@@ -179,6 +184,6 @@ fn main() {
         cx.cycle(t.as_bytes(), i % 10 == 0, "grammar");
         if i % 2 == 0 { cx.tamper(t.as_bytes(), "tamper"); }
     }
-    for s in strings_over(&alpha, 3) { cx.tamper(&s, "tamper-small"); }
+    for len in 0..=(if thorough { 5 } else { 4 }) { for s in strings_over(&alpha, len) { cx.tamper(&s, "tamper-small"); } }
     cx.out.finish();
 }
